@@ -37,6 +37,9 @@ def run(ctx, repo):
     XL.mapping_rules(ctx, repo)
     ctx.call(R6B.r_tag_handles_sorted, repo)
     ctx.call(RREG.r_cow, repo, only=['yaml_implicit_resolvers'])
+    ctx.call(RREG.r_cow, repo)
+    ctx.call(RX.r_timestamp_exact, repo)
+    ctx.call(RO.r_option_normalised, repo)
 
 
 if __name__ == '__main__':
